@@ -11,9 +11,9 @@
 //!    documents for the flag set (transcribed here by name: `--x-y` sets `x_y`), and for bad input:
 //!    non-zero exit, a message, empty stdout, no file touched.
 //!
-//! The harness links comrak without syntect. Most runs pass `--syntax-highlighting none`; the runs that
-//! leave the highlighter on (default theme, explicit theme) use documents that contain no code block,
-//! on which the highlighter has nothing to do (checked on the parsed tree before comparing).
+//! The harness links comrak with its syntect feature. Most runs pass `--syntax-highlighting none`; for the runs
+//! that leave the highlighter on (default theme, explicit theme) the expected HTML is the library's with a
+//! SyntectAdapter of the same theme; half of them keep their code blocks.
 use crate::gen::{grammar_doc, palette_doc};
 use crate::model::{Batch, Model};
 use crate::opts::Opts;
@@ -176,7 +176,39 @@ fn strip_code(doc: &str) -> String {
     out.replace("```", "'''").replace("~~~", "'''")
 }
 
+/// A document whose rendering contains single pieces far larger than an I/O buffer: a link title of 9 kB over
+/// several lines, an indented code block of 12 kB whose last line has 3 000 bytes, a 10 kB paragraph line.
+/// (A sink that accepts only part of a large write - a line-buffered terminal or pipe - must get the rest too.)
+fn big_chunk_doc(r: &mut Rng) -> String {
+    let word = |r: &mut Rng| r.ps(&["lorem", "ipsum", "dolor", "sit", "amet", "x", "yy"]).to_string();
+    let mut title = String::new();
+    while title.len() < 9000 {
+        title.push_str(&word(r));
+        title.push(if title.len() % 97 < 3 { '\n' } else { ' ' });
+    }
+    let mut code = String::new();
+    while code.len() < 9000 {
+        code.push_str("    ");
+        for _ in 0..12 {
+            code.push_str(&word(r));
+            code.push(' ');
+        }
+        code.push('\n');
+    }
+    code.push_str("    ");
+    code.push_str(&"tail ".repeat(600));
+    code.push('\n');
+    let long_line = "word ".repeat(2000);
+    // the title ends with a line of 2 500 bytes: the piece handed to the sink is > 8 kB, holds newlines, and has
+    // more than a buffer's worth after its last newline
+    let title = format!("{}\n{}", title.trim().replace('"', ""), "tail ".repeat(500).trim());
+    format!("intro\n\n[link](/u \"{}\")\n\n{}\n{}\n\nend *text*\n", title, code, long_line)
+}
+
 fn gen_doc(r: &mut Rng, code_free: bool) -> String {
+    if !code_free && r.chance(1, 25) {
+        return big_chunk_doc(r);
+    }
     let d = match r.below(10) {
         0..=4 => RICH.to_string(),
         5 => {
@@ -205,14 +237,32 @@ struct Rendered {
     has_code: bool,
 }
 
-fn lib_render(input: &str, o: &Opts, fmt: &str) -> Result<Rendered, String> {
+/// One syntect adapter per theme for the whole run (loading the syntax set is slow).
+fn adapter_for(theme: &str) -> &'static comrak::plugins::syntect::SyntectAdapter {
+    use std::collections::HashMap;
+    use std::sync::{Mutex, OnceLock};
+    static ADAPTERS: OnceLock<Mutex<HashMap<String, &'static comrak::plugins::syntect::SyntectAdapter>>> = OnceLock::new();
+    let mut g = ADAPTERS.get_or_init(|| Mutex::new(HashMap::new())).lock().unwrap();
+    if let Some(a) = g.get(theme) {
+        return a;
+    }
+    let a: &'static comrak::plugins::syntect::SyntectAdapter = Box::leak(Box::new(comrak::plugins::syntect::SyntectAdapter::new(Some(theme))));
+    g.insert(theme.to_string(), a);
+    a
+}
+
+/// `theme`: the syntax highlighter the binary is expected to use (HTML output only).
+fn lib_render(input: &str, o: &Opts, fmt: &str, theme: Option<&str>) -> Result<Rendered, String> {
     catch_unwind(AssertUnwindSafe(|| {
         let arena = Arena::new();
         let opts = o.to_comrak();
         let root = comrak::parse_document(&arena, input, &opts);
         let has_code = root.descendants().any(|n| matches!(n.data.borrow().value, NodeValue::CodeBlock(_)));
         let mut out = vec![];
-        let plugins = Plugins::default();
+        let mut plugins = Plugins::default();
+        if let (Some(t), "html") = (theme, fmt) {
+            plugins.render.codefence_syntax_highlighter = Some(adapter_for(t));
+        }
         let r = match fmt {
             "html" => comrak::format_html_with_plugins(root, &opts, &mut out, &plugins),
             "xml" => comrak::format_xml_with_plugins(root, &opts, &mut out, &plugins),
@@ -586,7 +636,9 @@ fn make_case(r: &mut Rng, atoms: &[Atom], d: &Dims, doc: &str) -> Case {
         }
     };
     let hl_on = hl_on && fmt == "html";
-    let doc = if hl_on { strip_code(doc) } else { doc.to_string() };
+    // with the highlighter on half of the documents keep their code blocks (top-level and nested): the
+    // expected output is then the library's with the same syntect theme
+    let doc = if hl_on && r.chance(1, 2) { strip_code(doc) } else { doc.to_string() };
     // inputs
     let db = doc.as_bytes();
     let mut files: Vec<(Vec<u8>, Option<Vec<u8>>)> = vec![];
@@ -957,16 +1009,38 @@ fn check(c: &Case, o: &Outcome, e: &Expect) -> Option<String> {
     None
 }
 
-fn render_expect(input: &[u8], opts: &Opts, fmt: &str, sink: &Option<Vec<u8>>, hl: bool) -> Result<Expect, String> {
+fn render_expect(input: &[u8], opts: &Opts, fmt: &str, sink: &Option<Vec<u8>>, hl: Option<&str>) -> Result<Expect, String> {
     let text = std::str::from_utf8(input).map_err(|_| "input buffer is not valid UTF-8".to_string())?;
-    let Rendered { out, has_code } = lib_render(text, opts, fmt)?;
-    if hl && has_code {
-        return Err("SKIP highlighter on and the document has a code block".to_string());
-    }
+    let Rendered { out, has_code } = lib_render(text, opts, fmt, hl)?;
+    let _ = has_code;
     Ok(match sink {
         None => Expect { code: Some(0), stdout: out, write: None, message: false },
         Some(p) => Expect { code: Some(0), stdout: vec![], write: Some((p.clone(), out)), message: false },
     })
+}
+
+/// The highlighter theme the documentation promises for this command line (S side): the value of the last
+/// `--syntax-highlighting` among the process arguments and the config words, `base16-ocean.dark` when none is given.
+fn case_theme(c: &Case) -> Option<String> {
+    if !c.hl_on {
+        return None;
+    }
+    let mut words: Vec<String> = c.argv.iter().map(|a| String::from_utf8_lossy(a).into_owned()).collect();
+    words.extend(c.cfg_words.iter().cloned());
+    let mut theme = "base16-ocean.dark".to_string();
+    let mut i = 0;
+    while i < words.len() {
+        if words[i] == "--syntax-highlighting" {
+            if let Some(v) = words.get(i + 1) {
+                theme = v.clone();
+            }
+            i += 1;
+        } else if let Some(v) = words[i].strip_prefix("--syntax-highlighting=") {
+            theme = v.to_string();
+        }
+        i += 1;
+    }
+    Some(theme)
 }
 
 fn model_request(c: &Case, dflt: &str) -> String {
@@ -991,7 +1065,7 @@ fn model_request(c: &Case, dflt: &str) -> String {
 enum Plan {
     Unsupported,
     Exit(i32),
-    Run { m: Opts, d: Opts, fmt: String, hl: bool, sink: Option<Vec<u8>>, input: Vec<u8> },
+    Run { m: Opts, d: Opts, fmt: String, hl: Option<String>, sink: Option<Vec<u8>>, input: Vec<u8> },
 }
 
 fn parse_plan(resp: &str) -> Option<Plan> {
@@ -1003,7 +1077,7 @@ fn parse_plan(resp: &str) -> Option<Plan> {
             m: Opts::from_wire(&t[2..9])?,
             d: Opts::from_wire(&t[10..17])?,
             fmt: t[18].to_string(),
-            hl: t[20] != "none",
+            hl: if t[20] == "none" { None } else { Some(String::from_utf8(unhex(&t[20][1..])?).ok()?) },
             sink: if t[22] == "stdout" { None } else { Some(unhex(&t[22][1..])?) },
             input: unhex(t[24])?,
         }),
@@ -1037,7 +1111,7 @@ fn judge(c: &Case, o: &Outcome, resp: &str, rep: &mut Report) {
             if m != d {
                 rep.disagree("cli-model-vs-documented", input.clone(), format!("cliToOptions {} but documented {}", m.wire(), d.wire()));
             }
-            match render_expect(buf, m, fmt, sink, *hl) {
+            match render_expect(buf, m, fmt, sink, hl.as_deref()) {
                 Err(msg) if msg.starts_with("SKIP") => rep.count(if msg.contains("panicked") { "skipped-library-panic" } else { "skipped-highlighter-with-code-block" }),
                 Err(msg) => rep.disagree("cli-vs-model", input.clone(), format!("library call under the model's options failed: {} :: {}", msg, c.label)),
                 Ok(e) => {
@@ -1066,7 +1140,7 @@ fn judge(c: &Case, o: &Outcome, resp: &str, rep: &mut Report) {
                     return;
                 }
             }
-            match render_expect(&c.s_input, &c.s_opts, &c.s_fmt, &sink, c.hl_on) {
+            match render_expect(&c.s_input, &c.s_opts, &c.s_fmt, &sink, case_theme(c).as_deref()) {
                 Err(msg) if msg.starts_with("SKIP") => rep.count(if msg.contains("panicked") { "skipped-library-panic" } else { "skipped-highlighter-with-code-block" }),
                 Err(msg) => rep.fail("cli-total", "library-fails-too", input, format!("library call failed: {} :: {}", msg, c.label)),
                 Ok(e) => {
@@ -1381,7 +1455,7 @@ fn non_unicode_cases() -> Vec<Case> {
 /// model of `parseArgs` is over Unicode arguments: no K here).
 fn judge_s_only(c: &Case, o: &Outcome) -> Option<String> {
     let sink = c.s_sink.as_ref().map(|s| s.clone().into_bytes());
-    match render_expect(&c.s_input, &c.s_opts, &c.s_fmt, &sink, false) {
+    match render_expect(&c.s_input, &c.s_opts, &c.s_fmt, &sink, case_theme(c).as_deref()) {
         Err(m) => Some(m),
         Ok(e) => check(c, o, &e),
     }
@@ -1441,7 +1515,7 @@ pub fn run(cfg: &Cfg, rep: &mut Report) {
         let mut with = base_atoms.clone();
         with.push(a.clone());
         let seen = [RICH, MINI].iter().any(|doc| {
-            FORMATS.iter().any(|f| lib_render(doc, &documented_opts(&base_atoms), f).ok().map(|x| x.out) != lib_render(doc, &documented_opts(&with), f).ok().map(|x| x.out))
+            FORMATS.iter().any(|f| lib_render(doc, &documented_opts(&base_atoms), f, None).ok().map(|x| x.out) != lib_render(doc, &documented_opts(&with), f, None).ok().map(|x| x.out))
         });
         if !seen {
             unobservable.push(a.show());
@@ -1620,7 +1694,7 @@ pub fn run(cfg: &Cfg, rep: &mut Report) {
         }
     }
     rep.notes.push("a flag given both on the command line and in the config file is rejected by clap (exit 2, \"cannot be used multiple times\"): outside the property's quantifier (subsets split between the two); compared with the model only".into());
-    rep.notes.push("highlighter: the harness links comrak without syntect; runs that leave the highlighter on use documents without code blocks (verified on the parsed tree), all other runs pass --syntax-highlighting none or an empty theme".into());
+    rep.notes.push("highlighter: with the highlighter on the expected HTML is the library's with a SyntectAdapter of the same theme; half of those runs keep their code blocks".into());
     rep.notes.push("--gemojis (README) does not exist in the default build (feature `shortcodes` is off); not part of the model".into());
     let _ = std::fs::remove_dir_all(&root);
 }
